@@ -3,7 +3,7 @@
    by the actual bits and the formal parameters by the actual values, in order ("every call site is replaced by the body of
    its definition with actuals substituted for formals") -- added to the whole-program judgement of Lang/BroadcastProofs.v. *)
 From Coq Require Import ZArith List Bool String Lia.
-From Verif Require Import Aexp BGate PyVal CastPrim Ast State GatesGen GateLib Unroll ResolveProofs Depth DepthModel ExprProofs FixProofs ParamProofs LoopProofs BroadcastProofs ModUnrollProofs LoopModProofs.
+From Verif Require Import Aexp BGate PyVal CastPrim Ast State GatesGen GateLib Unroll ResolveProofs Depth DepthModel ExprProofs FixProofs ParamProofs LoopProofs BroadcastProofs ModUnrollProofs LoopModProofs BranchProofs.
 Import ListNotations.
 Open Scope Z_scope.
 
@@ -516,7 +516,11 @@ Definition gtop_step (env : renv) (G : genv) (stm : stmt) : option (renv * genv 
               | None =>
                   match gloop_ok hcall env G stm with
                   | Some (out, evs) => Some (env, G, out, evs)
-                  | None => match ptop_step env stm with Some (env', out, evs) => Some (env', G, out, evs) | None => None end
+                  | None =>
+                      match branch_ok env G stm with
+                      | Some (out, evs) => Some (env, G, out, evs)
+                      | None => match ptop_step env stm with Some (env', out, evs) => Some (env', G, out, evs) | None => None end
+                      end
                   end
               end
           end
@@ -585,7 +589,10 @@ Proof.
                                   | Some (out, evs) => Some (env, G, out, evs)
                                   | None => match gloop_ok hcall env G stm with
                                             | Some (out, evs) => Some (env, G, out, evs)
-                                            | None => match ptop_step env stm with Some (env', out, evs) => Some (env', G, out, evs) | None => None end
+                                            | None => match branch_ok env G stm with
+                                                      | Some (out, evs) => Some (env, G, out, evs)
+                                                      | None => match ptop_step env stm with Some (env', out, evs) => Some (env', G, out, evs) | None => None end
+                                                      end
                                             end
                                   end end
                         end) = Some (env', G', out, ev1) -> 
@@ -623,6 +630,13 @@ Proof.
             assert (Hnf : (Nat.pred gate_nesting <= S f)%nat) by (unfold gate_nesting in *; lia).
             destruct (gloop_fix hcall (Nat.pred gate_nesting) hcall_fix f env G s stm lo le Hnf T HG Hst Elo) as (s1 & E1 & D1 & S1).
             pose proof (gloop_ok_ops hcall hcall_ops env G stm lo le Elo) as Ops. destruct (total_ops env lo Ops) as [Tq Tc].
+            destruct (DE_counts _ _ D1) as [Nq Nc]. destruct (gframe_DE _ _ D1) as [Fg Fs].
+            exists s1. split; [exact E1|]. split; [eapply Top_DE; eauto|]. split; [lia|]. split; [lia|]. split; [exact S1|].
+            split; [intros r0; now apply wf_flat_ops|]. split; congruence. }
+          destruct (branch_ok env G stm) as [[bo be]|] eqn:Ebo.
+          { injection Eo as <- <- <- <-. destruct fuel as [|[|f]]; try lia.
+            destruct (branch_ok_fix false f env G s stm bo be (T_regs _ _ T) HG Ebo) as (s1 & E1 & D1 & S1).
+            pose proof (branch_ok_ops env G stm bo be Ebo) as Ops. destruct (total_ops env bo Ops) as [Tq Tc].
             destruct (DE_counts _ _ D1) as [Nq Nc]. destruct (gframe_DE _ _ D1) as [Fg Fs].
             exists s1. split; [exact E1|]. split; [eapply Top_DE; eauto|]. split; [lia|]. split; [lia|]. split; [exact S1|].
             split; [intros r0; now apply wf_flat_ops|]. split; congruence. }
@@ -747,7 +761,10 @@ Proof.
                                   | Some (out, evs) => Some (env, G, out, evs)
                                   | None => match gloop_ok hcall env G stm with
                                             | Some (out, evs) => Some (env, G, out, evs)
-                                            | None => match ptop_step env stm with Some (env', out, evs) => Some (env', G, out, evs) | None => None end
+                                            | None => match branch_ok env G stm with
+                                                      | Some (out, evs) => Some (env, G, out, evs)
+                                                      | None => match ptop_step env stm with Some (env', out, evs) => Some (env', G, out, evs) | None => None end
+                                                      end
                                             end
                                   end end
                         end) = Some (env', G', out, ev1) ->
@@ -776,6 +793,10 @@ Proof.
             assert (Hnf : (Nat.pred gate_nesting <= S f)%nat) by (unfold gate_nesting in *; lia).
             destruct (gloop_fix_validate hcall (Nat.pred gate_nesting) hcall_fix f env G s stm glo gle Hnf T HG Hst Elo) as (s1 & E1 & D1).
             exists s1. split; [exact E1|]. apply HDE; auto. eapply (gloop_ok_ops hcall hcall_ops); eauto. }
+          destruct (branch_ok env G stm) as [[bo be]|] eqn:Ebo.
+          { injection Eo as <- <- <- <-. destruct fuel as [|[|f]]; try lia.
+            destruct (branch_ok_fix true f env G s stm bo be (T_regs _ _ T) HG Ebo) as (s1 & E1 & D1 & S1).
+            exists s1. split; [exact E1|]. apply HDE; auto. eapply branch_ok_ops; eauto. }
           destruct (ptop_step env stm) as [[[env'' out''] evs'']|] eqn:Ep; [|discriminate Eo]. injection Eo as <- <- <- <-.
           unfold ptop_step in Ep. destruct (loop_ok env stm) as [lo|] eqn:El.
           + injection Ep as <- <- <-. destruct fuel as [|[|f]]; try lia.
